@@ -173,7 +173,7 @@ def roundtrip_task(task):
 def clause_filter(c, v, e):
     if c == 'hosterror':
         return True
-    if v['path'].startswith('envelope:notimpl:') and c == 'outcome':
+    if v['path'].startswith(('envelope:notimpl:', 'envelope:unimplemented:')) and c == 'outcome':
         return True                                   # accepted coprocessor instruction must reach the coprocessor hooks
     return v['path'].startswith(('psrapi', 'exact', 'exc')) and c not in ('range', 'confine', 'nop-on-condfail')
 
